@@ -214,7 +214,7 @@ CLAIMED = {
                      'min(N, n) distinct rows sorted by decreasing flux with no dropped row '
                      'brighter than a kept one (all three finders); apply_filters keeps a row iff its '
                      'reported sharpness, roundness and peak lie within the inclusive bounds (DAO, '
-                     'IRAF); DAOStarFinder and StarFinder keep a row only if every reported column of that row is '
+                     'IRAF); all three finders keep a row only if every reported column of that row is '
                      'finite (DAO: the flux column excepted when the effective threshold is 0); supplied xycoords are rounded to the pixel containing the position; '
                      'finder calls never rebind '
                      'configuration. The finders end-to-end are checked bounded against definition '
